@@ -31,6 +31,7 @@ def run_case(case, ctx):
     o, _ = S.opts(case, L)
     key = json.dumps([case["t"], case["ts"], case["o"]], ensure_ascii=False, sort_keys=True)
     cls = case["g"]
+    C.perturb(ctx, case["t"], ts, {k: v for k, v in o.items() if k != "timeout"})
     post, pre = [], []
     orig_gen, orig_inner = m.ctparse_gen, m._ctparse
 
@@ -82,6 +83,15 @@ def run_case(case, ctx):
                 elif res.score != best:
                     pr.append(("not-maximal", "returned score %r but the stream held %r (%s)" % (
                         res.score, best, V.show(V.val([p for p in cands if p.score == best][0].resolution)))))
+    if not o.get("latent_time", True):
+        # without latent anchoring the stream the caller sees IS the pre-latent stream: the same rule applies to it
+        seen_post = {}
+        for p in cands:
+            v = V.val(p.resolution)
+            if v in seen_post and not (p.score > seen_post[v]):
+                pr.append(("value-repeated-without-higher-score", "(latent off) %s streamed with score %r after %r" % (V.show(v), p.score, seen_post[v])))
+                break
+            seen_post[v] = max(p.score, seen_post.get(v, p.score))
     seen = {}
     for v, s in pre:
         if v in seen and not (s > seen[v]):
